@@ -7,6 +7,7 @@ import BiscuitModel.Model.Params
 import BiscuitModel.Model.Keys
 import BiscuitModel.Model.Untrusted
 import BiscuitModel.Model.CApi
+import BiscuitModel.Model.WireDec
 open Lean Biscuit Biscuit.Codec
 
 def runExpr (j : Json) : P Json := do
@@ -267,6 +268,13 @@ def runChain (j : Json) : P Json := do
          ("root_key_id", match c.rootKeyId with | some k => (k : Json) | none => Json.null),
          ("wire_bytes", Json.str (hex (Wire.encContainer c)))]
       else []
+    -- the model's decoder on the bytes that were presented (honest stages carry them)
+    let dec : List (String × Json) := match fieldOpt j "raw" with
+      | some (.str r) =>
+        match unhex r with
+        | .ok bytes => [("decoded_same", Json.bool (Wire.decContainer bytes == some c))]
+        | .error _ => []
+      | _ => []
     -- the signature version the rule of the code assigns to each block of an honest token
     let sv : List (String × Json) := match fieldOpt j "datalog_versions", fieldOpt j "root_alg" with
       | some dvj, some raj =>
@@ -286,7 +294,7 @@ def runChain (j : Json) : P Json := do
         [("payloads", Json.arr ((tokenTriples root c).map fun t =>
           Json.mkObj [("what", t.1), ("key", pubKeyOut t.2.1), ("msg", hex t.2.2.1), ("sig", hex t.2.2.2)]).toArray)]
       else []
-    pure (Json.mkObj (base ++ more ++ pay ++ sv))
+    pure (Json.mkObj (base ++ more ++ dec ++ pay ++ sv))
 
 /-- operations on a sealed container: each is decided by the model's state machine -/
 def runSealOps (j : Json) : P Json := do
